@@ -41,6 +41,9 @@ def init():
 
     np.seterr(all="ignore")
     import resonaate  # noqa: F401
+    import resonaate.scenario.config  # noqa: F401  (pre-import: forked children of run_isolated() inherit the modules)
+    import resonaate.scenario.scenario  # noqa: F401
+    import resonaate.scenario.scenario_builder  # noqa: F401
     from resonaate.common.behavioral_config import BehavioralConfig
 
     BehavioralConfig.getConfig().debugging.ParallelDebugMode = True
@@ -186,7 +189,7 @@ class Built:
         self.app, self.db_path, self.cfg = app, db_path, cfg
 
 
-def build(cfg: dict, *, scheduler=None, base_seed: int = 0, importer_db_path: str | None = None, db_path: str | None = None) -> Built:
+def build(cfg: dict, *, scheduler=None, base_seed: int = 0, importer_db_path: str | None = None, db_path: str | None = None, exec_order=None) -> Built:
     """Build a real ``Scenario`` through the library's own factory on a fresh stand-in cluster."""
     init()
     import copy
@@ -195,7 +198,7 @@ def build(cfg: dict, *, scheduler=None, base_seed: int = 0, importer_db_path: st
     from resonaate.data import clearDBPath
     from resonaate.scenario import buildScenarioFromConfigDict
 
-    shimray.reset(base_seed=base_seed, scheduler=scheduler)
+    shimray.reset(base_seed=base_seed, scheduler=scheduler, exec_order=exec_order)
     shimray.init()
     _reset_library_state()
     try:
@@ -293,3 +296,67 @@ def circ_state(a: float, inc_deg: float, raan_deg: float, u_deg: float):
                   -math.sin(O) * math.sin(u) + math.cos(O) * math.cos(u) * math.cos(i),
                   math.cos(u) * math.sin(i)])
     return a * P, v * Q
+
+
+# ---------------------------------------------------------------------------------------------
+# process isolation: every run starts from the same pristine interpreter state
+# ---------------------------------------------------------------------------------------------
+class IsolatedRunError(Exception):
+    pass
+
+
+def run_isolated(fn, *args, timeout: float = 600.0, **kwargs):
+    """Run ``fn(*args, **kwargs)`` in a forked child and return its (pickled) result.
+
+    The parent never builds a scenario itself, so each child starts from the same process state
+    (module-level caches empty, like a fresh Ray worker); process-wide state written by one run can
+    therefore not mask - or be masked by - another run.
+    """
+    import pickle
+    import select
+    import signal
+    import time as _time
+
+    init()
+    r, w = os.pipe()
+    pid = os.fork()
+    if pid == 0:  # child
+        code = 0
+        try:
+            os.close(r)
+            try:
+                payload = ("ok", fn(*args, **kwargs))
+            except BaseException as e:  # noqa: BLE001
+                import traceback
+
+                payload = ("err", f"{type(e).__name__}: {e} :: {traceback.format_exc()[-800:]}")
+            data = pickle.dumps(payload, protocol=5)
+            with os.fdopen(w, "wb") as f:
+                f.write(data)
+        except BaseException:  # noqa: BLE001
+            code = 3
+        finally:
+            os._exit(code)
+    os.close(w)
+    chunks = []
+    deadline = _time.time() + timeout
+    with os.fdopen(r, "rb") as f:
+        while True:
+            left = deadline - _time.time()
+            if left <= 0:
+                os.kill(pid, signal.SIGKILL)
+                os.waitpid(pid, 0)
+                raise IsolatedRunError(f"isolated run exceeded {timeout:.0f} s")
+            ready, _, _ = select.select([f], [], [], min(left, 5.0))
+            if ready:
+                chunk = f.read1(1 << 20) if hasattr(f, "read1") else f.read(1 << 20)
+                if not chunk:
+                    break
+                chunks.append(chunk)
+    os.waitpid(pid, 0)
+    if not chunks:
+        raise IsolatedRunError("isolated run died without a result")
+    kind, value = pickle.loads(b"".join(chunks))
+    if kind == "err":
+        raise IsolatedRunError(value)
+    return value
